@@ -470,6 +470,8 @@ class Calls(object):
             if isinstance(d.t, TNone):
                 ot = TOpt(t.v)
                 return SV(z3.If(has, ot.some(cx, v), ot.none(cx)), ot)
+            if isinstance(d.t, TOpt) and d.t.inner == t.v:
+                return SV(z3.If(has, d.t.some(cx, v), d.e), d.t)
             d = ev.coerce(d, t.v)
             return SV(z3.If(has, v, d.e), t.v)
         if name in ("items", "values", "keys"):
@@ -503,8 +505,9 @@ class Calls(object):
             return SV(r, t)
         if name == "join":
             (a,) = self._args(ev, node, st)
-            f = cx.func("str_join_" + a.t.name.replace("[", "_").replace("]", "_"), cx.Str, a.t.sort(cx), cx.Str)
-            return SV(f(recv.e, a.e), TStr())
+            if not isinstance(a.t, TSeq):
+                raise Outside("join of %s" % a.t)
+            return SV(self.fx.lib.str_join(recv.e, a), TStr())
         if name in STR_METHODS:
             argspec, rt = STR_METHODS[name]
             args = self._args(ev, node, st)
@@ -600,7 +603,7 @@ class Calls(object):
                 for exc, cond in c.get("raises", {}).items():
                     if cond is not None and c.get("raises_exact", True):
                         post.assume(z3.Not(cev.truthy(cev.ev(sess.parse_spec(cond), pre))))
-            for e_src in c.get("ensures", []):
+            for e_src in list(c.get("ensures", [])) + list(c.get("assumed_ensures", [])):
                 post.assume(cev.truthy(cev.ev(sess.parse_spec(e_src), post)))
         finally:
             post.old_heap, post.old_env = saved_old
